@@ -355,6 +355,8 @@ def run_callable(case):
     S = afqmc.make_system(case["kind"], 4, ne, rng, walker_type=wt, dt=0.02, n_walkers=nw, nchol=3, orthonormal=True, spin_dep=False)
     smp = sampling.sampler(n_prop_steps=2, n_ene_blocks=1, n_sr_blocks=1, n_blocks=1)
     pd = S["prop_data"]
+    if pd is None:   # the initial-walker generator refused (legitimately) for this trial / container combination
+        return {"events": [ev("entry/skip-init-refused", None, key="C12/callable/skip-init-refused")], "nontrivial": False, "counters": {"entry_calls": 0}}
     try:
         e, out = call_entry(case["entry"], smp, S, pd)
         ok = bool(np.isfinite(float(e)))
